@@ -289,6 +289,16 @@ func exhaustiveC13(thorough bool, emit func(C13Case) bool) {
 			return
 		}
 	}
+	// a megabase sequence (beyond any threshold for working in pieces or in parallel), valid and
+	// with one foreign byte in the middle: the panic must reach the caller
+	{
+		mb := realDNA(1<<20+3, 5, false, true)
+		bad := bytes.Clone(mb)
+		bad[len(bad)/2+1] = 'N'
+		if !emit(C13Case{Kind: "dna", Data: mb}) || !emit(C13Case{Kind: "dna", Data: bad}) {
+			return
+		}
+	}
 	// one sequence as long as a large chromosome arm (2^28 bases and a few): no length is special
 	if thorough {
 		if !emit(C13Case{Kind: "huge", Huge: 1<<28 + 5}) {
@@ -375,7 +385,10 @@ func keyC13(c C13Case) []byte {
 }
 
 func propC13() Prop[C13Case] {
-	return Prop[C13Case]{ID: "C13", Gen: genC13, Exhaustive: exhaustiveC13, Check: checkC13, Key: keyC13}
+	return Prop[C13Case]{ID: "C13", Gen: genC13, Exhaustive: exhaustiveC13, Check: checkC13, Key: keyC13,
+		// announced before they run: a panic raised on a goroutine started by the library kills
+		// the process and no caller can recover it
+		Risky: func(c C13Case) bool { return len(c.Data) >= 1<<20 || c.Huge > 0 }}
 }
 
 func TestC13(t *testing.T) { Run(t, propC13()) }
